@@ -6,7 +6,7 @@ from pv.check import run_check
 from pv.entail import entails
 from pv.expr import Ctx, guard_facts, key_contains
 from pv.facts import AnalysisBroken, strip_targs
-from pv.loops import enclosing_loops, loop_shape
+from pv.loops import covers, enclosing_loops, loop_shape
 from pv import roles
 from checks.lehmann import fld, THIS
 from checks.c07 import deconv
@@ -28,25 +28,36 @@ def body(chk, db, cfgname):
         writes1 = []   # H(0,0) = 1
         solver = None
         evecs = evals = None
+        readpos = {}
+
+        def add_read(j, rhs):
+            """Eigenvalues(0) = <value>: the value may have been read from H(0,0) earlier into a local"""
+            vk = ctx.key(rhs)
+            if key_contains(vk, lambda y: y == h00):
+                reads.append((j, vk))
+                rn = f.nodes[rhs]
+                while rn["k"] == "cast":
+                    rn = f.nodes[rn["sub"]]
+                readpos[j] = ctx.decls[rn["d"]]["declnode"] if rn["k"] == "ref" and rn.get("dk") == "local" and "declnode" in ctx.decls.get(rn["d"], {}) else j
         for j, n in f.walk(f.body):
             if n["k"] == "call" and n.get("ck") == "op" and n.get("op") in ("<<", "="):
                 k = ctx.key(j, inline=False)
                 if k[1] == "<<" and k[2] == Ev:
-                    reads.append((j, k[3]))
+                    add_read(j, n["args"][1])
                 if k[1] == "=" and k[2] == Hm and k[3][0] == "mcall" and k[3][1].endswith("::eigenvectors"):
                     evecs = (j, k[3][2])
                 if k[1] == "=" and k[2] == Ev and k[3][0] == "mcall" and k[3][1].endswith("::eigenvalues"):
                     evals = (j, k[3][2])
-                if k[1] == "=" and k[2][:3] == ("op", "()", Ev) and key_contains(k[3], lambda y: y == h00):
-                    reads.append((j, k[3]))
+                if k[1] == "=" and k[2][:3] == ("op", "()", Ev):
+                    add_read(j, n["args"][1])
                 if k[1] == "=" and k[2] == h00:
                     writes1.append((j, k[3]))
             if n["k"] == "bin" and n["op"] == "=":
                 k = ctx.key(j, inline=False)
                 if k[2] == h00:
                     writes1.append((j, k[3]))
-                if k[2][:3] == ("op", "()", Ev) and key_contains(k[3], lambda y: y == h00):
-                    reads.append((j, k[3]))
+                if k[2][:3] == ("op", "()", Ev):
+                    add_read(j, n["r"])
             if n["k"] == "decl":
                 for v in n["vars"]:
                     if v.get("init") is not None and "SelfAdjointEigenSolver" in v.get("t", ""):
@@ -73,7 +84,7 @@ def body(chk, db, cfgname):
                           and f.cfg.dominates(f.cfg.pos1(jj), f.cfg.pos1(j)) for jj, n in f.walk(f.body))
             if not ok_val:
                 r1.bad(site, f.loc(j), "the eigenvalue of a 1x1 block is %s, expected (the real part of) H(0,0)" % (val,), cfgname)
-            elif w and not f.cfg.dominates(f.cfg.pos1(j), f.cfg.pos1(w[0][0])):
+            elif w and not f.cfg.dominates(f.cfg.pos1(readpos.get(j, j)), f.cfg.pos1(w[0][0])):
                 r1.bad(site, f.loc(w[0][0]), "H(0,0) is overwritten with the eigenvector entry 1 BEFORE the eigenvalue is read from it: every 1x1 block reports eigenvalue 1", cfgname)
             elif not w:
                 r1.bad(site, f.loc(j), "the eigenvector of a 1x1 block is not set to (1): H keeps the matrix element and is later used as the eigenvector matrix", cfgname)
@@ -171,14 +182,16 @@ def body(chk, db, cfgname):
                 probs.append("the stored value is not the amplitude of the same image state")
             # the iterator walks F.actRight(ket) completely
             walk_ok = False
+            seen_loop = False
             for j, n in f.walk(f.body):
                 if n["k"] == "for" and any(x == A for x, _ in f.walk(n["body"])):
-                    ini = ctx.key(n["init"]) if n.get("init") is not None else None
-                    cnd = ctx.cmp_fact(n["c"], True) if n.get("c") is not None else []
-                    if ini is not None and key_contains(ini, lambda y: y[0] == "mcall" and y[1] == "std::map::begin" and y[2] == act) and \
-                            any(x[0] == "!=" and key_contains(x, lambda y: y[0] == "mcall" and y[1] == "std::map::end" and y[2] == act) for x in cnd) and \
-                            not [e for e in loop_shape(f, ctx, j)["exits"]]:
-                        walk_ok = True
+                    shp_ = loop_shape(f, ctx, j)
+                    if shp_["var"] is not None and shp_["var"][:2] == it[:2]:
+                        seen_loop = True
+                        if covers(shp_, act):
+                            walk_ok = True
+            if not seen_loop:
+                raise AnalysisBroken("HamiltonianPart::prepare: the loop that advances the image iterator was not found")
             if not walk_ok:
                 probs.append("not every image state of H|ket> (all entries of F.actRight(ket), ket = Fock state `right` of the block) is written")
         if probs:
@@ -237,13 +250,35 @@ def body(chk, db, cfgname):
         adv = [j for j, n in g.walk(g.body) if n["k"] == "bin" and n["op"] == "+="]
         good = False
         why = "expected one std::copy per block and one offset increment"
-        if len(copies) == 1 and len(adv) == 1:
-            ck = gctx.key(copies[0], inline=False)
+        # the per-block transfer: std::copy(src.data(), src.data()+src.size(), out.data()+off)  or  out.segment(off, src.size()) = src
+        segs = []
+        for j, n in g.walk(g.body):
+            if (n["k"] == "call" and n.get("ck") == "op" and n.get("op") == "=" and len(n["args"]) == 2) or (n["k"] == "bin" and n["op"] == "="):
+                lk_ = gctx.key(n["args"][0] if n["k"] == "call" else n["l"], inline=False)
+                if lk_[0] == "mcall" and lk_[1].split("::")[-1] in ("segment", "middleRows") and len(lk_) == 5:
+                    segs.append((j, lk_, gctx.key(n["args"][1] if n["k"] == "call" else n["r"], inline=False)))
+        form = None
+        if len(copies) == 1 and len(adv) == 1 and not segs:
+            form = "copy"
+        elif len(segs) == 1 and len(adv) == 1 and not copies:
+            form = "segment"
+        elif not copies and not segs:
+            raise AnalysisBroken("Hamiltonian::getEigenValues: the per-block transfer is neither std::copy nor a segment assignment")
+        if form:
+            X = copies[0] if form == "copy" else segs[0][0]
             ak = gctx.key(adv[0], inline=False)
             off = ak[2]
-            Ls = enclosing_loops(g, copies[0])
+            Ls = enclosing_loops(g, X)
             shp = loop_shape(g, gctx, Ls[0]) if Ls else None
-            src = ck[2][2] if ck[2][0] == "mcall" else None
+            if form == "copy":
+                ck = gctx.key(X, inline=False)
+                src = ck[2][2] if ck[2][0] == "mcall" else None
+            else:
+                _, lk_, rk_ = segs[0]
+                src = rk_
+                # same shape as the std::copy call: (callee, begin, end, destination)
+                ck = ("call", "segment", None, None, ("op", "+", lk_[2], lk_[3]) if lk_[4] == ("mcall", "Eigen::EigenBase::size", src) else ("bad",))
+                copies = [X]
             full = shp is not None and shp["kind"] == "index" and deconv(shp["start"]) == ("lit", 0) and not shp["exits"] and \
                 deconv(shp["bound"]) in (("mcall", SC + "NumberOfBlocks", fld(HH + "::S")), ("mcall", "std::vector::size", fld(HH + "::parts")))
             srcdecl = gctx.decls.get(src[1], {}) if src and src[0] == "var" else {}
